@@ -2083,6 +2083,7 @@ impl Parser {
         let ty_node = children.next().unwrap();
         let ty_span = ty_node.as_span();
 
+        let ident_span = ident_node.as_span();
         let mut ident = Self::ident(ident_node)?;
 
         let real_ty = Self::r#type(ty_node)?;
@@ -2098,6 +2099,13 @@ impl Parser {
         }
 
         if real_ty.is_class() {
+            // an alias of a class is also a name for its constructor: like a class name it cannot
+            // take the place of a variable of this scope, and it cannot be reassigned
+            if let Some(existing) = input.user_data().get_ident_from_name_local(ident.name()) {
+                return Err(new_err(ident_span, &input.user_data().get_source_file_name(), format!("This name is already in scope (Hint: `{}: {} = ...` was declared somewhere above)", ident.name(), existing.ty().unwrap())));
+            }
+
+            ident.mark_const();
             ident.link_force_no_inherit(input.user_data(), real_ty.clone())?;
         }
 
